@@ -87,6 +87,7 @@ def catalogue():
     c["int-even"] = ({"k": "Int", "o": {"validator": "even", "default": 2}}, [4, "6"], [3, "5", "x"])
     c["dict-typed-v"] = ({"k": "Dict", "key": {"k": "Str"}, "val": {"k": "Int"}, "o": {"validator": "distinct-values"}},
                          [D(("a", 1), ("b", 2)), D(("a", "3"))], [D(("a", 1), ("b", "1")), D(("a", "x"))])
+    c["challenge-counter"] = ({"k": "Challenge", "o": {"hash_algorithm": "sha1", "default_counter": True}}, ["pw", "pw2"], [5])
     c["str-req-nodflt"] = ({"k": "Str", "o": {"required": True}}, ["v", "w"], [None, "", 5])
     c["dict-byteskey"] = ({"k": "Dict", "key": {"k": "Bytes", "o": {"encoding": "hex"}}, "val": {"k": "Int"}}, [D((Y(b"\xab\xcd"), 1)), D((Y(b"\xa0"), 2), ("k", 3))], [D((5, 1))])
     c["dict-any-empty-dflt"] = ({"k": "Dict", "o": {"default": D()}}, [D(("k", 1))], ["x"])
@@ -152,6 +153,7 @@ class Built:
         self.spec = spec
         self.ctypes = {}
         self.named = {}
+        self.issued = {}
         self.counters = collections.Counter()
         self.schema = self._schema(spec, cc)
 
@@ -196,6 +198,16 @@ class Built:
         if f["k"] == "Method":
             return cc.InstanceMethodField(lambda cfg, n=1: n + 1)
         o = f.get("o", {})
+        if o.get("default_counter"):
+            ff = {"k": f["k"], "o": {a: b for a, b in o.items() if a not in ("default", "default_counter")}}
+            issued = self.issued.setdefault(json.dumps(f, sort_keys=True), [])
+
+            def counting(issued=issued):
+                issued.append("issued-secret-%d" % (len(issued) + 1))
+                return issued[-1]
+            fld = R.mk_field(ff)
+            fld._default = counting
+            return fld
         if o.get("default_callable"):
             ff = {"k": f["k"], "o": {a: b for a, b in o.items() if a not in ("default", "default_callable")}}
             for extra in ("item", "key", "val"):
